@@ -271,6 +271,11 @@ func (x *Exec) Do(op Op) error {
 				if op.SameSize {
 					content = m.FileSource(op.K, f, fi == 0) + fmt.Sprintf("\n// edit %06d\n", x.touches)
 				}
+				if op.How == "break-types" {
+					// the edit leaves a type error behind (a reference to something that does not exist yet)
+					content += fmt.Sprintf("\nvar _ = notDeclaredAnywhere%d\n", x.touches)
+					x.Env.Stats.Add("fault/type-error-planted", 1)
+				}
 				if err := x.writeWithClock(filepath.Join(x.Root, p.Dir, f.Name), []byte(content), op.MTime); err != nil {
 					return infra("touch: %v", err)
 				}
